@@ -41,6 +41,9 @@ def configs():
             out.append(dict(fam=f, ne=ne, avoid=True, width=None, obs_noise=1.0, max_dist=1.5, min_prob_norm=0.3))
             out.append(dict(fam=f, ne=ne, avoid=True, width=1, obs_noise=1.0))
             out.append(dict(fam=f, ne=ne, avoid=False, width=1, obs_noise=3.0, max_dist=2.5, max_dist_init=1.1, obs_noise_ne=8.0))
+            if ne:
+                out.append(dict(fam=f, ne=True, avoid=True, width=None, obs_noise=3.0, obs_noise_ne=0.5))
+                out.append(dict(fam=f, ne=True, avoid=True, width=None, obs_noise=1.0, obs_noise_ne=0.1, dist_noise=2.0, dist_noise_ne=0.5))
     return out
 
 
@@ -114,7 +117,7 @@ def run_case(case):
         traces = _ps.special_traces(case["pos"], g0)
     else:
         traces = trace_list(case)
-    cfgs = [case["cfg"]] if "cfg" in case else (CFGS if "special" not in case else [c for c in CFGS if c["ne"] and c["obs_noise"] in (0.1, 1.0, 3.0)])
+    cfgs = [case["cfg"]] if "cfg" in case else (CFGS if "special" not in case else [c for c in CFGS if c["ne"] and c["obs_noise"] in (0.1, 1.0, 3.0) and c.get("width") is None])
     for trace in traces:
         tr = [to_ll(p) for p in trace] if latlon else trace
         tr3 = [(p[0], p[1], 1000.0 + 7.0 * i) for i, p in enumerate(tr)]
